@@ -13,6 +13,7 @@ var All = []*ev.Property{
 	C06,
 	C08,
 	C09,
+	C10,
 	C11,
 	C12,
 	C13,
